@@ -47,7 +47,6 @@ Qed.
 (* Parameter.create / replace *)
 Example param_examples :
   param_create 1%positive (XFin 1) (Some (XFin 0)) (Some (XFin 2)) false = Some (mkparam 1%positive (XFin 1) (XFin 0) (XFin 2) false) /\
-  g_bounds_not_nan (Some (XFin 0)) (Some (XFin 2)) = true /\
   param_create 1%positive (XFin 3) (Some (XFin 0)) (Some (XFin 2)) false = None /\
   param_create 1%positive XNaN None None false = None /\
   param_replace (mkparam 1%positive (XFin 1) (XFin 0) (XFin 2) false) None (Some (XFin (1#2))) None None (Some true)
@@ -67,7 +66,8 @@ Example names_examples :
   params_create [mkparam 1%positive (XFin 1) XNegInf XPosInf false; mkparam 1%positive (XFin 2) XNegInf XPosInf false] = None /\
   rvs_create_seq [[1%positive; 2%positive]; [3%positive]] = Some [[1%positive; 2%positive]; [3%positive]] /\
   rvs_create_seq [[1%positive; 2%positive]; [2%positive]] = None /\
-  rvs_wf [[1%positive]] = true /\ g_fresh_names [[1%positive]] [2%positive; 3%positive] = true.
+  rvs_wf [[1%positive]] = true /\ g_fresh_names [[1%positive]] [2%positive; 3%positive] = true /\
+  rvs_add [[1%positive]] [2%positive; 3%positive] = Some [[1%positive]; [2%positive; 3%positive]].
 Proof. repeat split; try (vm_compute; reflexivity). vm_compute. discriminate. Qed.
 
 (* _canonicalize_statements.  Symbols: 1 THETA, 2 ETA, 3 WGT (column), 4 t, 5 NaN, 10 CL, 11 V, 12 Y, 13 A_C, 14 S *)
@@ -109,7 +109,7 @@ Definition parameter_class : eqclass :=
           [(1%positive,0); (2%positive,0); (3%positive,0); (4%positive,0); (5%positive,0)].
 Example eqhash_examples :
   cls_consistent parameter_class = true /\ cls_consistent cs_class = true /\ cls_consistent cs_class_before_fix = false /\
-  hashed_not_compared colinfo_class = [(9%positive, 0)] /\ hashed_not_compared model_class = [(10%positive, 1)] /\
+  hashed_not_compared colinfo_class_before_fix = [(9%positive, 0)] /\ hashed_not_compared model_class = [(10%positive, 1)] /\
   cls_eq parameter_class (fun t => Pos.to_nat (fst t)) (fun t => Pos.to_nat (fst t)) = true /\
   cls_eq parameter_class (fun t => Pos.to_nat (fst t)) (fun _ => 0) = false.
 Proof. repeat split; vm_compute; reflexivity. Qed.
